@@ -205,6 +205,37 @@ package forwarder
 // an exact entry.
 //@ pred matchOf(m *CredentialsMatcher, hp string) = ite(hp in m.hostport, m.hostport[hp], ite(!splitOK(hp), nil, ite(splitPort(hp) in m.port, m.port[splitPort(hp)], ite(splitHost(hp) in m.host, m.host[splitHost(hp)], m.global))))
 
+// NewCredentialsMatcher: an entry with a concrete host and port is filed under
+// the joined "host:port" (net.JoinHostPort: an IPv6 literal in brackets) - the
+// form Match and MatchURL look up; wildcard entries under their port / host.
+// (C19: the error of a rejected table is built from the position and from host
+// or port texts only - never by formatting an entry, whose String() prints the
+// password.)
+//@ pred exactEntry(c *HostPortUser) = !(c.Host == "*") && !(c.Port == "0")
+//@ contract errorfNoCred(format string, a []any) (result error)
+//@ requires forall i int {a[i]} :: 0 <= i && i < len(a) ==> !(a[i] is *HostPortUser) && !(a[i] is HostPortUser) && !(a[i] is *url.Userinfo)
+//@ modifies elems(any)
+//@ ensures result != nil
+//@ func (*HostPortUser).Validate
+//@ trusted
+//@ pure
+//@ func NewCredentialsMatcher$1
+//@ property C19
+//@ callas fmt.Errorf errorfNoCred
+//@ modifies elems(any)
+//@ ensures result != nil
+//@ func NewCredentialsMatcher
+//@ property C06 C19
+//@ callas fmt.Errorf errorfNoCred
+//@ requires forall j int {credentials[j]} :: 0 <= j && j < len(credentials) ==> credentials[j] != nil
+//@ modifies elems(any)
+//@ ensures result1 == nil && len(credentials) > 0 ==> result0 != nil && result0.hostport != nil
+//@ ensures result1 == nil && len(credentials) > 0 ==> forall j int {credentials[j]} :: 0 <= j && j < len(credentials) && exactEntry(credentials[j]) ==> (joinHP(credentials[j].Host, credentials[j].Port) in result0.hostport)
+//@ loop 0:
+//@   invariant m != nil && m.hostport != nil && m.host != nil && m.port != nil
+//@   invariant forall j int {credentials[j]} :: 0 <= j && j < len(credentials) ==> credentials[j] != nil
+//@   invariant forall j int {credentials[j]} :: 0 <= j && j < rangeindex + 1 && exactEntry(credentials[j]) ==> (joinHP(credentials[j].Host, credentials[j].Port) in m.hostport)
+
 //@ func (*CredentialsMatcher).Match
 //@ property C06
 //@ requires m != nil ==> m.log != nil
